@@ -218,7 +218,9 @@ func livenessClientDetects(w *World) {
 		silentAt = ss.At
 	}
 	w.Check("C14.client-detects-silent-server")
-	limit := time.Duration(T)*time.Second + time.Duration(I)*time.Second + 3*time.Second
+	// the last pong reached the client no later than one latency after the server fell silent, so the timeout
+	// expires at most T later; the small constant covers the client's checking period and the network latency
+	limit := time.Duration(T)*time.Second + 3*time.Second
 	ok := w.WaitUntil(limit+120*time.Second, 100*time.Millisecond, ss.IsClosed)
 	el := w.Net.Now() - silentAt
 	if !ok {
